@@ -370,3 +370,32 @@ pub fn run_cuts_with(data: &[u8], mode: Mode, buf_len: usize, base_flags: u32, c
     }
     DecResult { status: d.last.unwrap(), out: d.out, consumed: d.in_pos, calls: d.calls }
 }
+
+
+/// Histories for "the same decoder object, used before": 0 = a complete stream of the other
+/// framing, 1 = a stream abandoned in the middle of a dynamic block header/body with bits left in
+/// the bit buffer, 2 = a stream that failed. The object is then re-initialised with `init()`.
+pub const REUSE_KINDS: [&str; 3] = ["after-other-format", "after-abandoned", "after-failed"];
+
+pub fn reuse_history_bytes(kind: usize, zlib_next: bool) -> (Vec<u8>, u32) {
+    let text: Vec<u8> = b"previous stream, previous stream, previously streamed: 0123456789 abcdefghijklmnopqrstuvwxyz".iter().cycle().take(700).cloned().collect();
+    match kind {
+        0 => {
+            if zlib_next { (miniz_oxide::deflate::compress_to_vec(&text, 6), 0) } else { (miniz_oxide::deflate::compress_to_vec_zlib(&text, 6), F_ZLIB) }
+        }
+        1 => {
+            // same framing, cut inside the block (odd cut so that the bit buffer holds a partial byte)
+            let c = if zlib_next { miniz_oxide::deflate::compress_to_vec_zlib(&text, 6) } else { miniz_oxide::deflate::compress_to_vec(&text, 6) };
+            let cut = (c.len() * 2 / 3) | 1;
+            (c[..cut.min(c.len() - 1)].to_vec(), if zlib_next { F_ZLIB } else { 0 } | F_MORE)
+        }
+        _ => (vec![0x07, 0x55, 0xaa, 0x55, 0xaa, 0x55, 0xaa, 0x00], 0),
+    }
+}
+
+pub fn apply_reuse_history(d: &mut DecompressorOxide, kind: usize, zlib_next: bool) {
+    let (bytes, flags) = reuse_history_bytes(kind, zlib_next);
+    let mut scratch = vec![0u8; 4096];
+    let _ = miniz_oxide::inflate::core::decompress(d, &bytes, &mut scratch, 0, flags | F_FLAT);
+    d.init();
+}
